@@ -104,7 +104,7 @@ class ZConfigParser:
             self.error(e.message)
 
         if isempty:
-            self.context.endSection(section, type_, name, newsect)
+            self._end_section(section, type_, name, newsect)
             return section
 
         self.stack.append((type_, name, section))
@@ -117,9 +117,12 @@ class ZConfigParser:
         opentype, name, prevsection = self.stack.pop()
         if type_ != opentype:
             self.error("unbalanced section end")
+        self._end_section(prevsection, type_, name, section)
+        return prevsection
+
+    def _end_section(self, parent, type_, name, section):
         try:
-            self.context.endSection(
-                prevsection, type_, name, section)
+            self.context.endSection(parent, type_, name, section)
         except ZConfig.DataConversionError as e:
             if e.lineno < 0:
                 e.lineno = self.lineno
@@ -128,7 +131,6 @@ class ZConfigParser:
             raise
         except ZConfig.ConfigurationError as e:
             self.error(e.message)
-        return prevsection
 
     def handle_key_value(self, section, rest):
         m = _keyvalue_rx.match(rest)
